@@ -39,13 +39,13 @@ def machine_num(m):
     return int(m[len(NODE_PREFIX):])
 
 
-def proc_payload(group, name, state, now=1000):
+def proc_payload(group, name, state, now=1000, disabled=False):
     code = {'STOPPED': 0, 'RUNNING': 20}[state]
     return {'group': group, 'name': name, 'state': code, 'statename': state, 'expected': True,
             'now': now + 1000000, 'now_monotonic': now, 'start': now + 999990, 'start_monotonic': now - 10,
             'stop': 0 if code == 20 else now + 999995, 'stop_monotonic': 0 if code == 20 else now - 5,
             'pid': 1234 if code == 20 else 0, 'description': '', 'spawnerr': '', 'extra_args': '',
-            'disabled': False, 'startsecs': 1, 'stopwaitsecs': 2, 'program_name': name, 'process_index': 0,
+            'disabled': disabled, 'startsecs': 1, 'stopwaitsecs': 2, 'program_name': name, 'process_index': 0,
             'has_stdout': True, 'has_stderr': False}
 
 
@@ -210,8 +210,7 @@ class StrategySuite(Suite):
     name = 'strategy'
     prelude = 'From Sup Require Import Strategy.\nOpen Scope Z_scope.'
     case_type = 'scase'
-    evals = {'mismatches': 's_mismatches', 'spec_violations': 's_spec_violations',
-             'known:nodes-double-count': 's_known_double_count'}
+    evals = {'mismatches': 's_mismatches', 'spec_violations': 's_spec_violations'}
 
     def generate(self, rng, tier):
         n = 2000 if tier == 'quick' else 40000
@@ -227,7 +226,8 @@ class StrategySuite(Suite):
         return out
 
     def corpus(self):
-        # the F6 witness (see StrategyProofs.nodes_double_count): instance 1 identified twice on node 1
+        # a node list with a repeated identifier (what identify() built before fix 428ae17; by data here): kept for
+        # the model correspondence; the real double handshake is replayed by IdentifySuite
         lay = {'insts': [(1, 3, 1, 60), (2, 3, 2, 0), (3, 0, 1, 0), (4, 0, 2, 0), (5, 0, 1, 0), (6, 0, 2, 0)],
                'nodes': [(1, [1, 3, 5, 1]), (2, [2, 4, 6])]}
         return [{'strategy': 0, 'local': 1, 'layout': lay, 'ids': [1], 'expected': 10, 'reqs': [], 'kind': 'dup'}]
@@ -307,13 +307,10 @@ class DistributeSuite(Suite):
     name = 'distribute'
     prelude = 'From Sup Require Import Strategy.\nOpen Scope Z_scope.'
     case_type = 'dcase'
-    evals = {'mismatches': 'd_mismatches', 'spec_violations': 'd_spec_violations',
-             'known:nodes-double-count': 'd_known_double_count',
-             'known:single-node-unknown-process': 'd_known_unknown_process',
-             'known:single-node-overload': 'd_known_overload'}
+    evals = {'mismatches': 'd_mismatches', 'spec_violations': 'd_spec_violations'}
 
     def gen_case(self, rng, k):
-        hostile = (k % 12 == 11)
+        hostile = (k % 6 == 5)
         dup = (k % 9 == 4)
         lay = gen_layout(rng, hostile=False, dup=dup)
         # lighter loads so that whole applications fit somewhere
@@ -321,13 +318,14 @@ class DistributeSuite(Suite):
         n_proc = rng.randint(1, 5)
         procs = []
         for p in range(n_proc):
-            if hostile or rng.random() < 0.08:
+            if hostile or rng.random() < 0.25:
                 known = rng.sample(range(1, N_INST + 1), rng.randint(1, N_INST))
             else:
                 known = list(range(1, N_INST + 1))
+            disabled = [i for i in known if rng.random() < 0.1] if rng.random() < 0.3 else []
             procs.append({'load': rng.choice([0, 5, 10, 10, 15, 20, 30, rng.randint(0, 60)]),
                           'seq': rng.choice([1, 1, 2, 3, 0]) if rng.random() < 0.85 else 0,
-                          'known': sorted(known),
+                          'known': sorted(known), 'disabled': sorted(disabled),
                           'running_on': rng.choice(known) if rng.random() < 0.08 else None,
                           # the program's own identifiers rule: must be ignored by the distribution rules
                           'rule_ids': rng.sample(range(1, N_INST + 1), rng.randint(1, N_INST))})
@@ -379,14 +377,16 @@ class DistributeSuite(Suite):
         return [self.gen_case(rng, k) for k in range(n)]
 
     def corpus(self):
-        # F7 witness: two instances of node 1, each knowing one of the two programs
+        # former F7 witness (TypeError before fix b1324b8): two instances of node 1, each knowing one of the two
+        # programs; now p0 -> 1 and p1 -> 3
         lay = {'insts': [(1, 3, 1, 0), (2, 3, 2, 0), (3, 3, 1, 0), (4, 0, 2, 0), (5, 0, 1, 0), (6, 0, 2, 0)],
                'nodes': [(1, [1, 3, 5]), (2, [2, 4, 6])]}
         f7 = {'dist': 2, 'strategy': 0, 'local': 1, 'layout': lay, 'app_rule': [1, 3], 'kind': 'plain',
               'procs': [{'load': 10, 'seq': 1, 'known': [1], 'running_on': None, 'rule_ids': [1]},
                         {'load': 10, 'seq': 1, 'known': [3], 'running_on': None, 'rule_ids': [3]}],
               'op': 'before', 'planned': [(0, None), (1, None)], 'current': [], 'identifiers': [], 'added': None}
-        # overload witness: start_process of a process outside the start sequence, heavier than what is left
+        # former 'single-node-overload' witness (KeyError before fix b1324b8): start_process of a process outside the
+        # start sequence, heavier than what is left on the node; now the command simply gets no target
         lay2 = {'insts': [(1, 3, 1, 60), (2, 0, 2, 0), (3, 0, 1, 0), (4, 0, 2, 0), (5, 0, 1, 0), (6, 0, 2, 0)],
                 'nodes': [(1, [1, 3, 5]), (2, [2, 4, 6])]}
         over = {'dist': 2, 'strategy': 0, 'local': 1, 'layout': lay2, 'app_rule': ['*'], 'kind': 'plain',
@@ -418,7 +418,7 @@ class DistributeSuite(Suite):
             proc = ProcessStatus('app', f'p{p}', prules, supv)
             for i in spec['known']:
                 state = 'RUNNING' if spec['running_on'] == i else 'STOPPED'
-                proc.add_info(ident(i), proc_payload('app', f'p{p}', state))
+                proc.add_info(ident(i), proc_payload('app', f'p{p}', state, disabled=i in spec.get('disabled', [])))
             application.add_process(proc)
             processes.append(proc)
             if spec['running_on'] is not None:
@@ -457,7 +457,8 @@ class DistributeSuite(Suite):
         def view(cmd):
             proc = cmd.process
             return (int(proc.process_name[1:]), int(proc.rules.expected_load), bool(proc.stopped()),
-                    num(cmd.identifier) if cmd.identifier else None, sorted(num(x) for x in proc.info_map))
+                    num(cmd.identifier) if cmd.identifier else None, sorted(num(x) for x in proc.info_map),
+                    sorted(num(x) for x, info in proc.info_map.items() if info['disabled']))
 
         flat = [cmd for seq in jobs.planned_jobs.values() for cmd in seq]
         pre = {'current': [view(c) for c in jobs.current_jobs], 'planned': [view(c) for c in flat],
@@ -479,8 +480,8 @@ class DistributeSuite(Suite):
 
     @staticmethod
     def emit_cmd(v):
-        p, load, stopped, target, known = v
-        return app('mkCmd', p, load, stopped, optz(target), list(known))
+        p, load, stopped, target, known, disabled = v
+        return app('mkCmd', p, load, stopped, optz(target), list(known), list(disabled))
 
     def emit(self, inp, obs):
         jobs = app('mkJobs', [self.emit_cmd(v) for v in obs['jobs']['current']],
@@ -534,4 +535,124 @@ class DistributeSuite(Suite):
             for key, val in (('dist', inp['dist']), ('strategy', inp['strategy']), ('op', inp['op']),
                              ('kind', inp.get('kind', '?')), ('outcome', outcome), ('n_planned', len(inp['planned']))):
                 d[key][str(val)] = d[key].get(str(val), 0) + 1
+        return d
+
+
+# ---------------------------------------------------------------- suite 3
+class IdentifySuite(Suite):
+    """ Handshake histories on the REAL Context.on_identification_event / SupvisorsMapper.identify (state changes go
+    through the real SupvisorsInstanceStatus.state setter), then one real get_supvisors_instance on the result.
+    Catches a regression of 'an instance identified twice is listed twice in its node' (former finding F6): the
+    observed mapper.nodes is compared with the model (identify_nodes) and must satisfy nodes_nodup. """
+    name = 'identify'
+    prelude = 'From Sup Require Import Strategy.\nOpen Scope Z_scope.'
+    case_type = 'icase'
+    evals = {'mismatches': 'i_mismatches', 'spec_violations': 'i_spec_violations'}
+
+    def generate(self, rng, tier):
+        n = 300 if tier == 'quick' else 6000
+        out = []
+        for _ in range(n):
+            home = {i: rng.randint(1, 3) for i in range(1, N_INST + 1)}
+            ops = []
+            for _ in range(rng.randint(1, 9)):
+                i = rng.randint(1, N_INST) if rng.random() < 0.7 else rng.choice([1, 2])
+                node = home[i] if rng.random() < 0.92 else rng.randint(1, 4)
+                ops.append((i, node, rng.random() < 0.9))
+            scale = rng.choice([20, 35, 60, 100])
+            out.append({'ops': ops, 'loads': [rng.randint(0, scale) for _ in range(N_INST)],
+                        'strategy': rng.randint(0, 5), 'ids': gen_ids(rng), 'expected': rng.choice([0, 10, 20, 40])})
+        return out
+
+    def corpus(self):
+        # the former F6 witness: instance 2 (load 60) goes through two handshakes; +10 must still be accepted
+        return [{'ops': [(2, 1, True), (2, 1, True)], 'loads': [0, 60, 0, 0, 0, 0], 'strategy': 0, 'ids': [2],
+                 'expected': 10}]
+
+    def execute(self, inp):
+        from supvisors.strategy import get_supvisors_instance
+        from supvisors.ttypes import StartingStrategies, SupvisorsInstanceStates as States
+        w = world()
+        supv = w.supv
+        ctx, mapper = supv.context, supv.mapper
+        # state before any handshake (by data)
+        mapper.nodes = {}
+        mapper.local_identifier = ident(1)
+        networks = {}
+        for i in range(1, N_INST + 1):
+            networks[i] = w.views[i].serial()
+            mapper.instances[ident(i)].local_view = None
+            status = ctx.instances[ident(i)]
+            status._state = States.STOPPED
+            w.ballast[i].rules.expected_load = inp['loads'][i - 1]
+            status.processes = {w.ballast[i].namespec: w.ballast[i]}
+        now = 1000.0
+        for i, node, accepted in inp['ops']:
+            status = ctx.instances[ident(i)]
+            if status.state == States.RUNNING:
+                status.state = States.FAILED        # the instance is lost ...
+                status.state = States.STOPPED       # ... and seen again later
+            now += 10
+            svenv.CLOCK.now = now
+            status.state = States.CHECKING          # real setter: records the CHECKING date
+            network = dict(networks[i], machine_id=machine(node))
+            ctx.on_identification_event({'identifier': ident(i), 'now_monotonic': now + 1 if accepted else now - 1,
+                                         'network': network, 'stereotypes': []})
+            status.state = States.CHECKED
+            status.state = States.RUNNING
+        nodes = [(machine_num(m), [num(x) for x in ids]) for m, ids in mapper.nodes.items()]
+        loads = [int(ctx.instances[ident(i)].get_load()) for i in range(1, N_INST + 1)]
+        try:
+            r = get_supvisors_instance(supv, StartingStrategies(inp['strategy']), [ident(i) for i in inp['ids']],
+                                       inp['expected'], {})
+            o = ('ok', num(r) if r is not None else None)
+        except Exception as exc:
+            o = ('crash', svenv.crash_kind(exc))
+        # leave the shared world usable by the other suites
+        for i in range(1, N_INST + 1):
+            mapper.instances[ident(i)].local_view = w.views[i]
+        return {'nodes': nodes, 'loads': loads, 'inst': o}
+
+    def emit(self, inp, obs):
+        ops = [app('mkHs', i, node, acc) for i, node, acc in inp['ops']]
+        insts = [(i, obs['loads'][i - 1]) for i in range(1, N_INST + 1)]
+        return app('mkICase', ops, insts, inp['strategy'], list(inp['ids']), inp['expected'],
+                   [(k, list(ids)) for k, ids in obs['nodes']], emit_result(obs['inst'], optz))
+
+    def describe(self, inp, obs):
+        return {'input': inp, 'observed': obs}
+
+    def from_description(self, desc):
+        inp = desc['input']
+        inp['ops'] = [tuple(o) for o in inp['ops']]
+        return inp
+
+    def nontrivial(self, inp, obs):
+        seen = [i for i, _, acc in inp['ops'] if acc]
+        if len(seen) != len(set(seen)):     # some instance identified at least twice
+            return (tuple(inp['ops']), tuple(map(tuple, map(lambda kv: (kv[0], tuple(kv[1])), obs['nodes']))))
+        return None
+
+    def shrink_candidates(self, inp):
+        out = [dict(inp, ops=inp['ops'][:k] + inp['ops'][k + 1:]) for k in range(len(inp['ops']))] \
+            if len(inp['ops']) > 1 else []
+        out += [dict(inp, ids=inp['ids'][:k] + inp['ids'][k + 1:]) for k in range(len(inp['ids']))]
+        return out
+
+    def distribution(self, inputs, observeds):
+        d = {'n_handshakes': {}, 're_identified': 0, 'refused_identification': 0, 'machine_id_changed': 0, 'result': {}}
+        for inp, obs in zip(inputs, observeds):
+            n = len(inp['ops'])
+            d['n_handshakes'][str(n)] = d['n_handshakes'].get(str(n), 0) + 1
+            seen = [i for i, _, acc in inp['ops'] if acc]
+            d['re_identified'] += len(seen) != len(set(seen))
+            d['refused_identification'] += any(not acc for _, _, acc in inp['ops'])
+            per = {}
+            for i, node, acc in inp['ops']:
+                if acc:
+                    per.setdefault(i, set()).add(node)
+            d['machine_id_changed'] += any(len(v) > 1 for v in per.values())
+            o = obs['inst']
+            key = o[1] if o[0] == 'crash' else ('none' if o[1] is None else 'some')
+            d['result'][key] = d['result'].get(key, 0) + 1
         return d
